@@ -607,6 +607,21 @@ def _autoshapes(ctx, prog, S, M):
     verdict = None
     for r in rets_:
         e = r.value
+        if isinstance(e, ast.Name):
+            # `xs = []; for n, v in <guides>: xs.append(Adjustment(n, v))` is the comprehension it spells out
+            for lp in [x for x in ast.walk(iax) if isinstance(x, ast.For) and not x.orelse]:
+                app, tests = None, []
+                for st in lp.body:
+                    inner = st
+                    if isinstance(st, ast.If) and not st.orelse and len(st.body) == 1:
+                        inner = st.body[0]
+                    if isinstance(inner, ast.Expr) and isinstance(inner.value, ast.Call) and isinstance(inner.value.func, ast.Attribute) \
+                            and inner.value.func.attr == "append" and dotted(inner.value.func.value) == e.id and len(inner.value.args) == 1:
+                        app = inner.value.args[0]
+                        tests = [st.test] if inner is not st else []
+                if app is not None and len([s_ for s_ in lp.body if not isinstance(s_, ast.Pass)]) == 1:
+                    e = ast.copy_location(ast.ListComp(elt=app, generators=[ast.comprehension(target=lp.target, iter=lp.iter, ifs=tests, is_async=0)]), lp)
+                    break
         if isinstance(e, ast.Name) and e.id in val:
             e = val[e.id]
         while isinstance(e, ast.Call) and dotted(e.func) in ("list", "tuple") and len(e.args) == 1:
